@@ -52,7 +52,10 @@ func gen(r *verifsim.Rng, tier string) (any, hx.Sched) {
 	family := ""
 	var sub []string
 	if r.Intn(4) == 0 {
-		family = verifsim.Pick(r, []string{"G1", "G2", "G2", "G4", "G4", "G4"})
+		family = verifsim.Pick(r, []string{"G1", "G2", "G2", "G4", "G4", "G4", "G5", "G5"})
+		if family == "G5" {
+			sub = []string{verifsim.Pick(r, []string{"U", "SubU"}), "V"}
+		}
 		p := r.Perm(len(types))
 		sub = []string{types[p[0]], types[p[1]]}
 		ni = 3 + r.Intn(4)
@@ -61,12 +64,15 @@ func gen(r *verifsim.Rng, tier string) (any, hx.Sched) {
 	for len(w.Ops) < nops {
 		if len(insts) < ni && (len(insts) == 0 || r.Intn(3) == 0) {
 			op := Op{K: "I", Inst: len(insts), Class: "G1", Args: []string{verifsim.Pick(r, types)}}
-			switch r.Intn(6) {
+			switch r.Intn(7) {
 			case 0, 1:
 				op.Class = "G2"
 				op.Args = []string{verifsim.Pick(r, types), verifsim.Pick(r, types)}
 			case 2:
 				op.Class = "G3" // extends a plain class, has a defaulted property next to the typed one
+			case 4:
+				op.Class = "G5" // creates `new T()` inside its methods
+				op.Args = []string{verifsim.Pick(r, []string{"U", "V", "U", "V", "int", "SubU"})}
 			case 3:
 				if r.Intn(2) == 0 {
 					op.Class = "G4" // four type parameters; instantiations often differ only in the last one
@@ -79,7 +85,7 @@ func gen(r *verifsim.Rng, tier string) (any, hx.Sched) {
 			}
 			if family != "" {
 				op.Class = family
-				n := map[string]int{"G1": 1, "G2": 2, "G4": 4}[family]
+				n := map[string]int{"G1": 1, "G2": 2, "G4": 4, "G5": 1}[family]
 				op.Args = nil
 				first := verifsim.Pick(r, sub)
 				for i := 0; i < n; i++ {
@@ -103,6 +109,8 @@ func gen(r *verifsim.Rng, tier string) (any, hx.Sched) {
 			op.Mem = verifsim.Pick(r, []string{"p", "p", "p", "set", "put", "put"})
 		} else if in.Class == "G3" {
 			op.Mem = verifsim.Pick(r, []string{"p", "put"})
+		} else if in.Class == "G5" {
+			op.Mem = verifsim.Pick(r, []string{"p", "fill", "fill", "made"})
 		} else if in.Class == "G4" {
 			op.Mem = verifsim.Pick(r, []string{"a", "b", "c", "d", "d"})
 		} else {
@@ -178,6 +186,12 @@ func shrink(x any) []any {
 const prelude = `<?php
 class U { public $n = 1; }
 class V { public $n = 2; }
+class SubU extends U { public $m = 3; }
+class G5<T> {
+  public T $p;
+  public function make() { return new T(); }
+  public function fill() { $this->p = new T(); return 1; }
+}
 class G1<T> {
   public T $p;
   public function set(T $v) { return 1; }
@@ -210,6 +224,8 @@ function wc($o, $v) { try { $o->c = $v; return "A"; } catch (\Throwable $e) { re
 function wd($o, $v) { try { $o->d = $v; return "A"; } catch (\Throwable $e) { return "R"; } }
 function wset($o, $v) { try { $o->set($v); return "A"; } catch (\Throwable $e) { return "R"; } }
 function wput($o, $v) { try { $o->put($v); return "A"; } catch (\Throwable $e) { return "R"; } }
+function wfill($o, $v) { try { $o->fill(); return "A:" . get_class($o->p); } catch (\Throwable $e) { return "R"; } }
+function wmade($o, $v) { try { $m = $o->make(); $o->p = $m; return "A:" . get_class($m); } catch (\Throwable $e) { return "R"; } }
 function mkG1int() { return new G1<int>(); }
 function mkG1string() { return new G1<string>(); }
 function mkG1array() { return new G1<array>(); }
@@ -227,7 +243,7 @@ func renderOp(op Op, idx int) string {
 		}
 		return fmt.Sprintf("$o%d = new %s<%s>();\n", op.Inst, op.Class, strings.Join(op.Args, ", "))
 	}
-	fn := map[string]string{"p": "wp", "a": "wa", "b": "wb", "set": "wset", "put": "wput", "c": "wc", "d": "wd"}[op.Mem]
+	fn := map[string]string{"p": "wp", "a": "wa", "b": "wb", "set": "wset", "put": "wput", "c": "wc", "d": "wd", "fill": "wfill", "made": "wmade"}[op.Mem]
 	return fmt.Sprintf("__rec(\"w%d\", %s($o%d, %s));\n", idx, fn, op.Inst, valueExpr[op.Val])
 }
 
@@ -391,6 +407,9 @@ func exec(t *testing.T, x any, s hx.Sched) *hx.Outcome {
 			}
 			// oracle 2 (own arguments): differential against a non-generic class declared with the concrete type
 			ckey := fmt.Sprintf("c.%s.%s.%s", map[bool]string{true: "set", false: "p"}[op.Mem == "set"], targ, op.Val) // put() stores into p
+			if op.Mem == "fill" || op.Mem == "made" {
+				ckey = "" // what `new T()` builds has no non-generic counterpart; the solo oracle covers it
+			}
 			if want, ok := concrete[ckey]; ok && sOK != want {
 				o.Violate(fmt.Sprintf("C19/own-argument-not-enforced/%s/%s-gets-%s", memKind(op.Mem), targ, op.Val),
 					fmt.Sprintf("alone in a fresh VM, %s is %s, but a non-generic class whose member is declared %s has it %s", desc, ar(sOK), targ, ar(want)))
@@ -413,6 +432,9 @@ func ar(s string) string {
 		return "accepted"
 	case "R":
 		return "rejected"
+	}
+	if strings.HasPrefix(s, "A:") {
+		return "accepted (object of class " + s[2:] + ")"
 	}
 	return "missing(" + s + ")"
 }
